@@ -63,12 +63,12 @@ def vs_ok(q=0.01):
 def vs_bad():
     """Volume specs that are meant to be refused (or sit exactly on / one ulp around the limit)."""
     return st.one_of(
-        st.fixed_dictionaries({"over": st.sampled_from([0.01, 0.01, 0.02, 0.5, 1.0, 10.0, 1000.0])}),
+        st.fixed_dictionaries({"over": st.sampled_from([0.001, 0.01, 0.01, 0.02, 0.5, 1.0, 10.0, 1000.0])}),
         st.fixed_dictionaries({"lim": st.sampled_from([-2, -1, 0, 0, 1, 2])}),
         st.sampled_from(["inf", "huge"]),
         # fits the well as it was before the call: two of them on one real well (a repeated id, two rows of a
         # trough column) are refused only by a check that follows the volumes within the call
-        st.fixed_dictionaries({"f0": st.sampled_from([0.55, 0.6, 0.75, 1.0])}),
+        st.fixed_dictionaries({"f0": st.sampled_from([0.35, 0.4, 0.45, 0.55, 0.6, 0.75, 1.0])}),
     )
 
 
